@@ -5,7 +5,8 @@ import svgcanon
 from common import hx, unhx
 from runner import PropertyCheck, Failure, Disagreement
 
-SEG_CHARS = "-|+/.,'`_~:!=*oO<>^vV()[]#ab xyz" + "<>&'" + "éüжш" + "一二日本" + "─│┌┘●"
+SEG_CHARS = "-|+/.,'`_~:!=*oO<>^vV()[]#ab xyz" + "<>&'" + "éüжш" + "一二日本" + "─│┌┘●" + \
+    "“”‘’«»＂″‟„"      # characters that look like quotes: only the ASCII quote delimits a string
 OUT_CHARS = "-|+/.,'`_~:!=*oO<>^v()[]ab  xyz    " + "é一"
 
 
